@@ -382,6 +382,24 @@ type c12Query struct {
 	Targets []uint64
 	Proof   u.Proof
 	Pos     uint64
+	// Shared: the argument slices are handed to the library as they are (no private copy) and
+	// the same backing arrays are used by other readers at the same time - arguments are
+	// read-only for the library, so callers may share them (added after seeded change C12i)
+	Shared bool `json:"-"`
+}
+
+func (q *c12Query) hs() []Hash {
+	if q.Shared {
+		return q.Hashes
+	}
+	return cloneHashes(q.Hashes)
+}
+
+func (q *c12Query) ts() []uint64 {
+	if q.Shared {
+		return q.Targets
+	}
+	return cloneU64(q.Targets)
 }
 
 func (q *c12Query) String() string {
@@ -540,7 +558,7 @@ func c12Exec(mp *u.MapPollard, cfg InstCfg, q *c12Query) string {
 	case "treerows":
 		return fmt.Sprint(mp.GetTreeRows())
 	case "prove":
-		pr, err := mp.Prove(cloneHashes(q.Hashes))
+		pr, err := mp.Prove(q.hs())
 		if err != nil {
 			return "err"
 		}
@@ -579,11 +597,11 @@ func c12Exec(mp *u.MapPollard, cfg InstCfg, q *c12Query) string {
 		}
 		return fmt.Sprint(pos)
 	case "leafposs":
-		return fmt.Sprint(mp.GetLeafHashPositions(cloneHashes(q.Hashes)))
+		return fmt.Sprint(mp.GetLeafHashPositions(q.hs()))
 	case "gethash":
 		return hx(mp.GetHash(q.Pos))[:16]
 	case "missing":
-		return fmt.Sprint(mp.GetMissingPositions(cloneU64(q.Targets)))
+		return fmt.Sprint(mp.GetMissingPositions(q.ts()))
 	case "write":
 		var buf bytes.Buffer
 		n, err := mp.Write(&buf)
@@ -756,6 +774,8 @@ type c12Run_ struct {
 	mu     sync.Mutex
 	evs    []c12Ev
 	panics []string
+	// requests of the free-running suite whose argument slices were in use by another reader too
+	sharedCalls int64
 }
 
 func (r *c12Run_) add(e c12Ev) {
@@ -862,6 +882,7 @@ func c12Run(c *core.Ctx, s c12Scenario) {
 	var pauseInfo *pauseResult
 	if s.Pause == nil {
 		pauseInfo = c12Free(r, rb)
+		c.Count("requests_sharing_their_argument_slices_with_another_reader", int(r.sharedCalls))
 	} else {
 		ps := *s.Pause
 		if ps.Step < 0 {
@@ -1126,6 +1147,9 @@ func c12Porcupine(p *c12Plan, cfg InstCfg, evs []c12Ev) (porcupine.CheckResult, 
 func c12Free(r *c12Run_, rb []byte) *pauseResult {
 	var wg sync.WaitGroup
 	var done atomic.Bool
+	var echo atomic.Pointer[c12Query] // the latest multi-item request of any reader
+	var sharedCalls atomic.Int64
+	defer func() { r.sharedCalls = sharedCalls.Load() }()
 	n := len(r.p.refs)
 	for i := 0; i < r.s.Readers; i++ {
 		wg.Add(1)
@@ -1146,7 +1170,20 @@ func c12Free(r *c12Run_, rb []byte) *pauseResult {
 				if r.s.Cfg.Kind == "mapfull" && rng.Intn(6) == 0 {
 					kind = "verify-remember" // a second mutator; observationally neutral on a full forest
 				}
-				r.doQuery(id+1, c12MkQuery(rng, r.p, kind, j))
+				q := c12MkQuery(rng, r.p, kind, j)
+				switch q.Kind {
+				case "missing", "leafposs", "prove":
+					// a third of these requests re-use the argument slices another reader is using
+					q.Shared = true
+					if e := echo.Load(); e != nil && e.Kind == q.Kind && rng.Intn(2) == 0 {
+						qq := *e
+						q = &qq
+						sharedCalls.Add(1)
+					} else {
+						echo.Store(q)
+					}
+				}
+				r.doQuery(id+1, q)
 				if rng.Intn(4) == 0 {
 					runtime.Gosched()
 				}
